@@ -47,6 +47,7 @@ type Fault struct {
 type TreeScript struct {
 	Prop       string  `json:"prop"`
 	CountJudge bool    `json:"count_judge,omitempty"` // C16: tasks use Insert/Delete/lookups/GetChangeCount only and the counts are judged
+	Reopen     bool    `json:"reopen,omitempty"`      // C16 judged saves: the tasks work on a trie object opened on the prepared state; saves go to copies of that state, some with deletes
 	SaveJudge  bool    `json:"save_judge,omitempty"`  // C16: tasks use Insert/Delete/lookups/saves only; every save goes to a store of its own and is judged
 	Scribble   bool    `json:"scribble,omitempty"`    // the harness edits every value a lookup returned, after judging it
 	Store      string  `json:"store"`                 // mem | lvlmem | lvlp | p | lvlpp
